@@ -40,7 +40,8 @@ type TaskRunner struct {
 	cancelFunc  context.CancelFunc
 	cancelMutex sync.RWMutex
 	canceling   bool
-	doneCh      chan struct{}
+	inFlight    int        // number of Run calls that have not returned yet
+	idle        *sync.Cond // signalled when inFlight drops to zero
 
 	compiler *TaskCompiler
 
@@ -61,8 +62,8 @@ func NewTaskRunner(opts ...Opts) (*TaskRunner, error) {
 		Stderr:       os.Stderr,
 		variables:    variables.NewVariables(),
 		env:          variables.NewVariables(),
-		doneCh:       make(chan struct{}, 1),
 	}
+	r.idle = sync.NewCond(&r.cancelMutex)
 
 	r.ctx, r.cancelFunc = context.WithCancel(context.Background())
 
@@ -92,12 +93,16 @@ func (r *TaskRunner) SetVariables(vars variables.Container) *TaskRunner {
 // Run run provided task.
 // TaskRunner first compiles task into linked list of Jobs, then passes those jobs to Executor
 func (r *TaskRunner) Run(t *task.Task) error {
+	r.cancelMutex.Lock()
+	r.inFlight++
+	r.cancelMutex.Unlock()
 	defer func() {
-		r.cancelMutex.RLock()
-		if r.canceling {
-			close(r.doneCh)
+		r.cancelMutex.Lock()
+		r.inFlight--
+		if r.inFlight == 0 {
+			r.idle.Broadcast()
 		}
-		r.cancelMutex.RUnlock()
+		r.cancelMutex.Unlock()
 	}()
 
 	verifAt("runner.run.enter", t)
@@ -181,7 +186,9 @@ func (r *TaskRunner) Run(t *task.Task) error {
 	return r.after(r.ctx, t, env, vars)
 }
 
-// Cancel cancels execution
+// Cancel cancels execution and waits until every run that is in flight has
+// returned. It may be called any number of times, from any goroutine, with or
+// without runs in flight; runs started afterwards fail without executing anything
 func (r *TaskRunner) Cancel() {
 	r.cancelMutex.Lock()
 	if !r.canceling {
@@ -190,8 +197,10 @@ func (r *TaskRunner) Cancel() {
 		r.cancelFunc()
 		verifAt("runner.cancel.signalled")
 	}
+	for r.inFlight > 0 {
+		r.idle.Wait()
+	}
 	r.cancelMutex.Unlock()
-	<-r.doneCh
 }
 
 // Finish makes cleanup tasks over contexts
